@@ -1033,12 +1033,8 @@ struct Digit {
                 if (power_increased) {
                     zeros = SizeT(number_length - fraction_length);
                 } else {
-                    const SizeT rem    = (index - started_at);
-                    const SizeT needed = SizeT(number_length - calculated_digits);
-
-                    if (rem > needed) {
-                        zeros = (rem - needed);
-                    }
+                    // Integer digits skipped as trailing zeros (or nines that carried).
+                    zeros = (index - dot_index);
                 }
 
                 while (zeros != 0) {
@@ -1114,12 +1110,8 @@ struct Digit {
                     if (power_increased) {
                         zeros = SizeT(number_length - fraction_length);
                     } else {
-                        const SizeT rem    = (index - started_at);
-                        const SizeT needed = SizeT(number_length - calculated_digits);
-
-                        if (rem > needed) {
-                            zeros = (rem - needed);
-                        }
+                        // Integer digits skipped as trailing zeros (or nines that carried).
+                        zeros = (index - dot_index);
                     }
 
                     while (zeros != 0) {
